@@ -29,13 +29,22 @@ reference (RefFn / FvWorld: the direct call with bound + extra arguments, a fres
 express the history, against the Lean jump machine over HostLib.hostLib.  The `sort` stream has recording compare functions too.
 Text without a UTF-8 form (streams `lib-surrogates`, `text-surrogates`): strings, keys and character codes with lone surrogates,
 implementation-side against the Python reference only (a Lean Char cannot be a surrogate).
+Boundary families and hidden state (added after seeding rounds 8 and 9): stream `empties` (the empty string / array / object / key / rest list in every
+argument position of every function, full product), stream `code-points` (strings built by stringFromCharCode from every single code, every ordered
+pair and chosen longer sequences of the UTF-8-length / surrogate / BMP / range boundary code points, taken apart again by every string function) and
+stream `history-independence` (implementation-side: every probe call must give the same result alone in a FRESH instance of the implementation
+package and inside several differently ordered histories - probes over the host-equal but distinct values 0.0 / -0.0 / 0 / False, 1.0 / 1 / True, ...,
+with a scale axis of calls formatting 0..4097 distinct floats, and every container-returning call issued twice with the first result changed).
 """
 
 import copy
 import datetime
+import importlib
+import itertools
 import json
 import os
 import re
+import sys
 import urllib.parse
 from fractions import Fraction
 
@@ -2600,6 +2609,502 @@ def stream_text_surrogates(ctx):
             ctx.witness(oracle, inp, want, actual)
 
 
+# ---------------------------------------------------------------------------------------------------------------------
+# Boundary families (added after seeding rounds 8 and 9)
+#
+# `empties`: the empty string / array / object (and the empty key, the empty rest list, count and index 0) in EVERY argument
+# position of every function, alone and together with the empties of the other positions (full product of a small value set per
+# parameter kind): stringReplace(s, '', x), stringSplit('', ''), arrayExtend(a, a) on [], objectNew('', ''), arrayJoin([], '') ...
+# `code-points`: strings BUILT by stringFromCharCode from code points at the UTF-8 length, surrogate, BMP and Unicode range
+# boundaries - every single code, every ordered PAIR (a high surrogate next to a low one is two code points, not one astral
+# character), chosen longer sequences - and then taken apart again by every string function.
+# ---------------------------------------------------------------------------------------------------------------------
+
+EMPTY_POOL = {'heap': [{'arr': []}, {'arr': []}, {'obj': []}, {'obj': []},
+                       {'arr': [{'n': [1, 1]}, {'s': 'x'}, None, {'s': ''}]},
+                       {'obj': [['a', {'n': [1, 1]}], ['', {'s': 'e'}], ['k', {'s': ''}]]},
+                       {'arr': [{'s': ''}, {'a': 1}, {'o': 3}]}],
+              'env': [{'a': 0}, {'a': 0}, {'a': 1}, {'o': 2}, {'o': 2}, {'o': 3}, {'a': 4}, {'a': 4}, {'o': 5}, {'o': 5}, {'a': 6}]}
+OMIT = {'omit': True}
+_S = lambda *xs: [{'s': x} for x in xs]      # noqa: E731
+_NUM = lambda *xs: [{'n': [x, 1]} for x in xs]      # noqa: E731
+# parameter kind -> (values for the first parameter of that kind, values for a later one); the FIRST value of each list is the empty one
+EMPTY_VALUES = {
+    'A': ([{'var': 0}, {'var': 6}, {'var': 10}], [{'var': 2}, {'var': 6}, {'var': 0}]),
+    'O': ([{'var': 3}, {'var': 8}], [{'var': 5}, {'var': 8}, {'var': 3}]),
+    'S': (_S('', 'a', 'abcabc'), _S('', 'a', 'bc', 'abcabc', 'x')),
+    'K': (_S('', 'a', 'zz'),) * 2,
+    'I': (_NUM(0, 1, 3) + [None],) * 2,
+    'N': (_NUM(0, 1, 2),) * 2,
+    'V': (_S('') + [{'var': 2}, {'var': 5}] + _S('x') + [None] + _NUM(0),) * 2,
+}
+EMPTY_REST = {
+    'V*': [[], _S(''), [{'var': 2}], [{'var': 5}], _S('') + [{'var': 2}, {'var': 5}], _S('x', '')],
+    'KV*': [[], _S(''), _S('', ''), _S('k', ''), _S('') + [{'var': 2}], _S('k') + [{'var': 5}] + _S('') + [None], _S('', 'x', '', '')],
+    'C*': [[], _NUM(97), _NUM(0), _NUM(97, 0x1f600), _NUM(0x10ffff, 0)],
+}
+EMPTY_PROTO = [{'s': ''}, {'var': 0}, {'var': 2}, {'var': 3}, {'var': 5}, {'n': [0, 1]}, None]
+
+
+def empties_cases():
+    """every function x the product of EMPTY_VALUES over its parameters (optional trailing parameters also omitted)"""
+    _, env, val = build_pool(EMPTY_POOL)
+    for fn in FUNC_NAMES:
+        kinds = FUNCS[fn][1]
+        axes = []
+        seen_kind = set()
+        for kind in kinds:
+            if kind.endswith('*'):
+                axes.append([('rest', r) for r in EMPTY_REST[kind]])
+                continue
+            vals = EMPTY_VALUES[kind[0]][1 if kind[0] in seen_kind else 0]
+            seen_kind.add(kind[0])
+            axes.append([('one', v) for v in vals] + ([('one', OMIT)] if kind.endswith('?') else []))
+        for combo in itertools.product(*axes):
+            args = []
+            omitted = False
+            ok = True
+            for how, v in combo:
+                if how == 'rest':
+                    args += v
+                elif v is OMIT:
+                    omitted = True
+                elif omitted:
+                    ok = False      # a parameter after an omitted one
+                else:
+                    args.append(v)
+            if not ok:
+                continue
+            vals = [env[a['var']] if isinstance(a, dict) and 'var' in a else val(a) for a in args]
+            if FUNCS[fn][2] and vals and isinstance(vals[0], (list, dict)):      # never build a cycle (F18)
+                others = vals[1:]
+                if fn == 'arrayExtend' and len(vals) > 1 and isinstance(vals[1], list):
+                    others = list(vals[1])
+                if fn == 'objectAssign' and len(vals) > 1 and isinstance(vals[1], dict):
+                    others = list(vals[1].values())
+                if any(reaches(o, vals[0]) for o in others):
+                    continue
+            yield fn, args, sum(1 for a in args if a in EMPTY_PROTO)
+
+
+def stream_empties(ctx):
+    st = ctx.stream('empties', 'every function x the full product over its parameters of a small value set per parameter kind that STARTS with the '
+                               "empty value: string '' / one character / the whole subject / an absent one, array [] / non-empty / [ '', [], {} ] / "
+                               "the first argument itself, object {} / one with the key '' and the value '' / the first argument itself, key '' / present / "
+                               'absent, index and count 0 / 1 / len / null / omitted, any-value \'\' / [] / {} / null / 0, rest lists of 0..4 values with '
+                               'empties in every place (objectNew(\'\', \'\'), stringFromCharCode()) - on a pool where every container has an alias; result, '
+                               'complete state, frame, freshness against reference and model; non-trivial = at least one argument is an empty value')
+    specs = []
+    counts = []
+    for fn, args, nempty in empties_cases():
+        spec = copy.deepcopy(EMPTY_POOL)
+        spec['calls'] = [{'fn': fn, 'args': args}]
+        specs.append(spec)
+        counts.append(nempty)
+    it = iter(counts)
+
+    def tags_of(spec, info):
+        n = next(it)
+        return n > 0, ['fn:' + spec['calls'][0]['fn'], f'empties:{min(n, 3)}', 'fails' if info['fails'] else 'succeeds']
+    for i in range(0, len(specs), 400):
+        run_batch(ctx, 'empties', st, specs[i:i + 400], tags_of)
+    st.exhaustive = True
+
+
+BOUNDARY_CODES = [0, 0x7F, 0x80, 0x7FF, 0x800, 0xD7FF, 0xD800, 0xDBFF, 0xDC00, 0xDFFF, 0xE000, 0xFFFF, 0x10000, 0x10FFFF]
+MORE_CODES = [0x41, 0x20, 0xD83D, 0xDE00, 0xDB7F, 0xDB80, 0xFFFD, 0xFFFE, 0xFEFF, 0x1F600]
+BAD_CODES = [{'n': [-1, 1]}, {'n': [0x110000, 1]}, {'n': [2 * 0xD800 + 1, 2]}, {'n': [2 ** 32, 1]}, None, {'s': 'A'}]
+
+
+def is_surrogate_code(c):
+    return 0xD800 <= c <= 0xDFFF
+
+
+def cp_sequences(rng, tier_quick):
+    """-> [(tag, [protocol code...])]"""
+    every = BOUNDARY_CODES + MORE_CODES
+    out = [('single', [c]) for c in every]
+    pair_codes = BOUNDARY_CODES if tier_quick else every
+    out += [('pair', [a, b]) for a in pair_codes for b in pair_codes]
+    if tier_quick:      # every high x low surrogate adjacency (both orders) also for the codes outside the pair table
+        his = [c for c in every if 0xD800 <= c <= 0xDBFF]
+        los = [c for c in every if 0xDC00 <= c <= 0xDFFF]
+        out += [('pair', [a, b]) for a in his for b in los if not (a in pair_codes and b in pair_codes)]
+        out += [('pair', [b, a]) for a in his for b in los if not (a in pair_codes and b in pair_codes)]
+    hi, lo, a = 0xD83D, 0xDE00, 0x41
+    out += [('longer', s) for s in ([a, hi, lo], [hi, lo, a], [a, hi, lo, a], [hi, hi, lo], [hi, lo, lo], [lo, hi, lo, hi], [0x1F600, hi, lo], [hi, lo, 0x1F600],
+                                    [hi, lo, hi, lo], [0xDBFF, 0xDFFF, 0x10FFFF], [0xD800, 0xDC00, 0x10000], [0xFFFF, 0x10000, 0xFFFF], [0, 0, 0],
+                                    [0x7F, 0x80, 0x7FF, 0x800], [0xD7FF, 0xD800, 0xDFFF, 0xE000], [hi, a, lo], [0x20, hi, lo, 0x20])]
+    for _ in range(0 if tier_quick else 1500):
+        out.append(('random', [rng.choice(every) for _ in range(rng.choice([3, 3, 4, 5, 6, 8]))]))
+    out = [(tag, [{'n': [c, 1]} for c in s]) for tag, s in out]
+    for bad in BAD_CODES:      # a code that is no code point: the call fails, whatever stands next to it
+        for good in (0x41, 0xD83D, 0x10FFFF):
+            out += [('invalid', [bad]), ('invalid', [{'n': [good, 1]}, bad]), ('invalid', [bad, {'n': [good, 1]}])]
+    return out
+
+
+def cp_history(codes):
+    """one history: the string is built from the codes and taken apart again by every string function (all arguments are variables:
+    results of earlier calls, so no such character has to be written in the script)"""
+    calls = []
+
+    def add(fn, *args):
+        calls.append({'fn': fn, 'args': list(args)})
+        return {'var': len(calls) - 1}
+
+    def num(i):
+        return {'n': [i, 1]}
+    s = add('stringFromCharCode', *codes)
+    add('stringLength', s)
+    valid = all(isinstance(c, dict) and 'n' in c and c['n'][1] == 1 and 0 <= c['n'][0] <= 0x10FFFF for c in codes)
+    if not valid:
+        return {'heap': [], 'env': [], 'calls': calls}
+    n = len(codes)
+    pieces = [add('stringSlice', s, num(i), num(i + 1)) for i in range(n)]
+    add('stringSlice', s, num(1))
+    add('stringSlice', s, num(0), num(n - 1))
+    for i in range(n + 1):
+        add('stringCharCodeAt', s, num(i))
+    for p in pieces:
+        add('stringCharCodeAt', p, num(0))
+        add('stringLength', p)
+    first, last = pieces[0], pieces[-1]
+    add('stringIndexOf', s, last)
+    add('stringIndexOf', s, last, num(min(1, n - 1)))
+    add('stringLastIndexOf', s, first)
+    add('stringLastIndexOf', s, first, num(n - 1))
+    add('stringStartsWith', s, first)
+    add('stringStartsWith', s, last)
+    add('stringEndsWith', s, last)
+    add('stringEndsWith', s, first)
+    add('stringSplit', s, last)
+    add('stringSplit', s, first)
+    add('stringReplace', s, first, {'s': 'x'})
+    add('stringReplace', s, last, {'s': ''})
+    add('stringReplace', s, {'s': ''}, first)
+    doubled = add('stringRepeat', s, num(2))
+    add('stringLength', doubled)
+    add('stringIndexOf', doubled, s, num(1))
+    add('stringLower', s)
+    add('stringUpper', s)
+    add('stringTrim', s)
+    add('regexEscape', s)
+    add('urlEncode', s)
+    add('urlEncodeComponent', s)
+    o = add('objectNew', s, num(1), first, num(2))
+    add('objectKeys', o)
+    add('objectGet', o, s)
+    add('objectHas', o, last)
+    a = add('arrayNew', *pieces)
+    joined = add('arrayJoin', a, {'s': ''})
+    add('stringLength', joined)
+    add('arrayJoin', a, s)
+    add('arrayIndexOf', a, last)
+    add('arrayLastIndexOf', a, first)
+    for c in codes:
+        add('stringFromCharCode', c)
+    return {'heap': [], 'env': [], 'calls': calls}
+
+
+def stream_code_points(ctx):
+    st = ctx.stream('code-points',
+                    'strings built by stringFromCharCode (codes as float literals) from code points at the boundaries: 0, U+7F/80, U+7FF/800 (UTF-8 '
+                    'lengths), U+D7FF/D800, U+DBFF/DC00, U+DFFF/E000 (surrogates), U+FFFF/10000 (BMP), U+10FFFF and further surrogates, '
+                    'non-characters, BOM, an astral character: every single code, every ordered pair of the boundary codes, every high x low '
+                    'surrogate adjacency in both orders, longer sequences (pair inside text, pair next to the astral character it would spell, '
+                    'two pairs, reversed pairs), codes that are no code point (-1, 0x110000, x.5, 2^32, null, a string) alone and next to a valid '
+                    'one (failure = null).  Each string is taken apart again: length, every one-code-point slice and its code, char code at '
+                    '0..len, searches / split / replace (also with the empty search string) / repeat / case / trim by its own first and last '
+                    'code point, as object key, array of its pieces joined again, regexEscape (matches exactly it), urlEncode* (null or '
+                    'reversible) - against the Python reference (str = code-point sequence) after every call; histories without a surrogate '
+                    'also against the Lean model (a Lean Char cannot be a surrogate: the others are implementation-side only); non-trivial = all')
+    rng = ctx.rng('code-points')
+    seqs = cp_sequences(rng, ctx.quick)
+    with_model, tags_model = [], []
+    for tag, codes in seqs:
+        spec = cp_history(codes)
+        ints = [c['n'][0] for c in codes if isinstance(c, dict) and 'n' in c and c['n'][1] == 1]
+        tags = [tag, f'len{min(len(codes), 5)}'] + (['surrogate'] if any(is_surrogate_code(c) for c in ints) else ['no-surrogate'])
+        if any(0xD800 <= a <= 0xDBFF and 0xDC00 <= b <= 0xDFFF for a, b in zip(ints, ints[1:])):
+            tags.append('high-then-low')
+        if tag != 'invalid' and not any(is_surrogate_code(c) for c in ints):
+            with_model.append(spec)
+            tags_model.append(tags)
+        else:
+            wit, _, info = check_history(spec)
+            st.case({'codes': codes}, nontrivial=True, tags=tags + ['failing-call'] * info['fails'])
+            for oracle, k, want, got in wit:
+                ctx.witness(oracle, {'spec': spec, 'step': k, 'script': info['script']}, want, got)
+        # the two text oracles on the string the SCRIPT built
+        if tag != 'invalid':
+            s = ''.join(chr(c) for c in ints)
+            inp = {'s': s, 'codes': ints}
+            try:
+                got, seen = text_run(s, ints)
+            except Exception as exc:  # pylint: disable=broad-except
+                ctx.witness('no-exception-escapes', inp, 'three values', f'{type(exc).__name__}: {exc}')
+                continue
+            if seen != s:
+                ctx.witness('stringFromCharCode-code-points', inp, scalar_proto(s), scalar_proto(seen))
+                continue
+            for oracle, want, actual in text_failures(s, got, rng):
+                ctx.witness(oracle, inp, want, actual)
+    it = iter(tags_model)
+    for i in range(0, len(with_model), 200):
+        run_batch(ctx, 'code-points', st, with_model[i:i + 200], lambda spec, info: (True, next(it) + ['failing-call'] * info['fails']))
+
+
+# ---------------------------------------------------------------------------------------------------------------------
+# History independence (added after seeding round 8): the reference model's result of a call is a function of the argument VALUES,
+# so "under any history of library calls each call returns the result the reference gives" forbids hidden state - a cache, a memo
+# table, an interned result - that makes the result depend on what was called before.  The dangerous keys are values that are
+# EQUAL AND HASH-EQUAL for the host but different values of the language: 0.0 / -0.0 / 0 / False, 1.0 / 1 / True, 2.0 / 2,
+# 1e16 / 10**16 ... (host-level inputs: the Lean model's numbers are rationals and have neither a negative zero nor an int / float /
+# bool spelling - implementation-side stream).  No text of a number is presumed (C13 owns it): every probe call is compared with
+# ITSELF - run alone in a FRESH instance of the implementation package (module state as in a process that has called nothing)
+# and inside several histories (the whole probe table in listed, reversed and shuffled order, every history in its own fresh
+# instance, so every two probes meet in both orders).  SCALE: calls that format N distinct floats, N = 0 .. 4097, are part of
+# every history (a bounded cache evicts, an unbounded one grows).
+# ---------------------------------------------------------------------------------------------------------------------
+
+HI_TWINS = [[0.0, -0.0, 0, False], [1.0, 1, True], [2.0, 2], [3.0, 3], [-1.0, -1], [97.0, 97], [1e16, 10 ** 16], [2.0 ** 53, 2 ** 53]]
+HI_SINGLES = [0.5, -0.5, 1.5, 1e-7, -1e-7, 1e21, 1e22, 123456.789, 5e-324, 1.7976931348623157e308, None, '', '0', '-0', '0.0', '1', 'true',
+              'false', 'null']
+HI_CONTAINERS = [[0.0], [-0.0], [0], [False], [1, True, 1.0], {'k': 0.0}, {'k': -0.0}, {'k': False}, [], {}]
+HI_BASE = {'A': [10.0, 'x', None], 'O': {'a': 1.0, 'b': 'y'}, 'S': 'abcabc', 'K': 'a', 'I': 1.0, 'N': 2.0, 'V': 'x', 'C': 97.0}
+HI_HAY = [False, 0, -0.0, 0.0, True, 1, 1.0, '0', '', None, [0.0], [-0.0], {'k': 0}]
+HI_FILL = [0, 1, 2, 9, 10, 11, 16, 17, 64, 65, 100, 101, 128, 129, 256, 1000, 1025, 4097]
+
+
+def hi_canon(x):
+    """a result with the host type spelled out: -0.0 is not 0.0, 1 is not 1.0 is not true"""
+    if x is None:
+        return None
+    if isinstance(x, bool):
+        return ['bool', x]
+    if isinstance(x, int):
+        return ['int', str(x)]
+    if isinstance(x, float):
+        return ['float', repr(x)]
+    if isinstance(x, str):
+        return ['str', x]
+    if isinstance(x, list):
+        return ['array', [hi_canon(y) for y in x]]
+    if isinstance(x, dict):
+        return ['object', [[hi_canon(k), hi_canon(v)] for k, v in x.items()]]
+    return ['other', type(x).__name__]
+
+
+def hi_probes():
+    """the probe table: [{'fn', 'args' (JSON-able host values), 'judge'}]"""
+    out = []
+    seen = set()
+
+    def add(fn, args, judge=True):
+        key = json.dumps([fn, hi_canon(args)])
+        if key not in seen:
+            seen.add(key)
+            out.append({'fn': fn, 'args': copy.deepcopy(args), 'judge': judge})
+    values = [v for cls in HI_TWINS for v in cls] + HI_SINGLES
+    # 1. the text of a value: stringNew, arrayJoin, the JSON text of a container; `+` on a string as part of the history only
+    for x in values:
+        add('stringNew', [x])
+        add('arrayJoin', [[x], ','])
+        add('arrayJoin', [[x, 'a', x], ''])
+        add('stringNew', [[x]])
+        add('stringNew', [{'k': x}])
+        add('+', ['', x], judge=False)
+    for cls in HI_TWINS:
+        for perm in (cls, cls[::-1]):
+            add('arrayJoin', [list(perm), ','])
+            add('stringNew', [list(perm)])
+    # 2. every function: a numeric parameter <- every member of a ==-class, an any-value parameter <- every value
+    for fn in FUNC_NAMES:
+        kinds = FUNCS[fn][1]
+        base = []
+        for kind in kinds:
+            base += ['k', 1.0] if kind == 'KV*' else [copy.deepcopy(HI_BASE[kind[0]])]
+        add(fn, base)
+        pos = 0
+        for kind in kinds:
+            pos += 2 if kind == 'KV*' else 1
+            p = pos - 1
+            if kind[0] in 'INC':
+                alts = [v for cls in HI_TWINS[:6 if kind[0] == 'C' else 4] for v in cls]
+            elif kind[0] == 'V' or kind == 'KV*':
+                alts = values + HI_CONTAINERS
+            else:
+                alts = []
+            for v in alts:
+                add(fn, base[:p] + [v] + base[p + 1:])
+    # 3. searches by equality over a haystack of ==-equal values
+    for x in values + HI_CONTAINERS:
+        add('arrayIndexOf', [HI_HAY, x])
+        add('arrayLastIndexOf', [HI_HAY, x])
+    # 4. scale: N distinct floats turned into text by one call
+    for n in HI_FILL:
+        add('arrayJoin', [[k + 0.5 for k in range(n)], ','])
+    return out
+
+
+def fresh_impl():
+    """a NEW instance of the implementation package - module-level state (caches, memo tables) as in a process that has not called
+    anything yet - without disturbing the instance fw.impl() holds"""
+    src = os.path.join(fw.REPO, 'src')
+
+    def ours(k):
+        return k == 'bare_script' or k.startswith('bare_script.')
+    saved = {k: sys.modules.pop(k) for k in [k for k in sys.modules if ours(k)]}
+    added = src not in sys.path
+    if added:
+        sys.path.insert(0, src)
+    try:
+        mods = {short: importlib.import_module('bare_script.' + short) for short in ('parser', 'runtime', 'library', 'value')}
+    finally:
+        for k in [k for k in sys.modules if ours(k)]:
+            del sys.modules[k]
+        sys.modules.update(saved)
+        if added:
+            sys.path.remove(src)
+    return mods
+
+
+def hi_call(mods, probe):
+    """one probe call through a script on the instance `mods`, arguments supplied by the host (fresh copies)
+    -> ([result, arguments after the call] with host types spelled out, the returned value itself)"""
+    args = copy.deepcopy(probe['args'])
+    glob = {f'a{i}': a for i, a in enumerate(args)}
+    names = [f'a{i}' for i in range(len(args))]
+    text = 'return ' + (' + '.join(names) if probe['fn'] == '+' else f'{probe["fn"]}({", ".join(names)})')
+    try:
+        ret = mods['runtime'].execute_script(mods['parser'].parse_script(text), {'globals': glob, 'maxStatements': 50})
+    except Exception as exc:  # pylint: disable=broad-except
+        return ['exception', type(exc).__name__], None
+    return [hi_canon(ret), hi_canon(args)], ret
+
+
+def hi_run(mods, probe):
+    return hi_call(mods, probe)[0]
+
+
+def hi_mutate(ret):
+    """what a script may do with a container a call returned to it"""
+    if isinstance(ret, list):
+        ret.append('mutated')
+    elif isinstance(ret, dict):
+        ret['mutated'] = True
+
+
+def hi_history(before, probe, mutate=False):
+    """the probe after the calls `before` (mutate: every container they return is changed by the caller), in a fresh instance"""
+    mods = fresh_impl()
+    for q in before:
+        ret = hi_call(mods, q)[1]
+        if mutate:
+            hi_mutate(ret)
+    return hi_run(mods, probe)
+
+
+def hi_flat(x):
+    if isinstance(x, list):
+        return [z for y in x for z in hi_flat(y)]
+    if isinstance(x, dict):
+        return [z for y in x.values() for z in hi_flat(y)]
+    return [x]
+
+
+def hi_related(p, q):
+    """do the two probes share a host-equal argument value of a different spelling (or the same function)?"""
+    a, b = hi_flat(p['args']), hi_flat(q['args'])
+    return any(x == y and hi_canon(x) != hi_canon(y) for x in a for y in b if x is not None and y is not None and not isinstance(x, str))
+
+
+def hi_shrink(probe, prefix, alone, budget=60):
+    """a short history after which the probe differs from its result alone: one related earlier call, all related ones, or the prefix"""
+    related = [q for q in prefix if hi_related(probe, q)]
+    for q in related[::-1][:budget]:
+        got = hi_history([q], probe)
+        if got != alone:
+            return [q], got
+    if related and len(related) < len(prefix):
+        got = hi_history(related, probe)
+        if got != alone:
+            return related, got
+    for q in prefix[::-1][:budget]:
+        got = hi_history([q], probe)
+        if got != alone:
+            return [q], got
+    return prefix, hi_history(prefix, probe)
+
+
+def hi_strip(p):
+    return {'fn': p['fn'], 'args': p['args']}
+
+
+def stream_history_independence(ctx):
+    st = ctx.stream('history-independence',
+                    'hidden state: every probe call - stringNew / arrayJoin / container text of every member of the host-equal classes 0.0, -0.0, 0, '
+                    'False | 1.0, 1, True | 2.0, 2 | 3.0, 3 | -1.0, -1 | 97.0, 97 | 1e16, 10**16 | 2.0**53, 2**53 and further numbers and strings; every function of '
+                    'the property with each numeric parameter spelled by every member of its class and each any-value parameter by every value and '
+                    'small containers of them; equality searches over a haystack of host-equal values; calls that format N = 0, 1, 2, 9, 10, 11, 16, '
+                    '17, 64, 65, 100, 101, 128, 129, 256, 1000, 1025, 4097 distinct floats - is run through a script in several histories (the table '
+                    'in listed, reversed and shuffled order, each history in a FRESH instance of the implementation package) and must return the same '
+                    'result and leave the same arguments, host types spelled out (-0.0 is not 0.0, 1 is not 1.0 is not true), in all of them; a '
+                    'difference is shrunk to  [one earlier call, the probe]  against the probe alone in a fresh instance; every call that returns a '
+                    'container is also issued twice, the caller changing the first result in between.  Implementation-side '
+                    'oracle only (no negative zero, no int / float / bool spelling in the Lean model); non-trivial = an argument has a host-equal twin')
+    rng = ctx.rng('history-independence')
+    probes = hi_probes()
+    orders = [list(range(len(probes))), list(range(len(probes)))[::-1]]
+    for _ in range(ctx.scale(6, 40)):
+        o = list(range(len(probes)))
+        rng.shuffle(o)
+        orders.append(o)
+    results = []
+    for order in orders:
+        mods = fresh_impl()
+        res = [None] * len(probes)
+        for i in order:
+            res[i] = hi_run(mods, probes[i])
+        results.append(res)
+    twins = [v for cls in HI_TWINS for v in cls]
+    reported = 0
+    for i, p in enumerate(probes):
+        flat = hi_flat(p['args'])
+        st.case([p['fn'], hi_canon(p['args'])], nontrivial=any(x == t and not isinstance(x, str) and x is not None for x in flat for t in twins),
+                tags=['fn:' + p['fn'], 'judged' if p['judge'] else 'history-only'])
+        got = [r[i] for r in results]
+        if not p['judge'] or all(g == got[0] for g in got) or reported >= 6:
+            continue
+        reported += 1
+        alone = hi_history([], p)
+        j = next((j for j, g in enumerate(got) if g != alone), 0)
+        prefix = [probes[k] for k in orders[j][:orders[j].index(i)]]
+        before, after = hi_shrink(p, prefix, alone)
+        ctx.witness('history-independence', {'hist': {'probe': hi_strip(p), 'before': [hi_strip(q) for q in before]}},
+                    {'the call alone (fresh instance of the implementation)': alone}, {'after the history': after})
+    # the same call twice, the caller changing the container the first one returned (a result kept and handed out again is shared state)
+    mods = fresh_impl()
+    reported = 0
+    for p in probes:
+        if not p['judge']:
+            continue
+        first, ret = hi_call(mods, p)
+        if not isinstance(ret, (list, dict)):
+            continue
+        hi_mutate(ret)
+        if hi_run(mods, p) == first or reported >= 6:
+            continue
+        alone = hi_history([], p)
+        after = hi_history([p], p, mutate=True)
+        if after != alone:
+            reported += 1
+            ctx.witness('history-independence', {'hist': {'probe': hi_strip(p), 'before': [hi_strip(p)], 'mutate': True}},
+                        {'the call alone (fresh instance of the implementation)': alone},
+                        {'after the same call whose returned container the caller changed': after})
+
+
 def streams(ctx):
     stream_args(ctx)
     stream_index(ctx)
@@ -2608,6 +3113,9 @@ def streams(ctx):
     stream_function_values(ctx)
     stream_lib_surrogates(ctx)
     stream_text_surrogates(ctx)
+    stream_empties(ctx)
+    stream_code_points(ctx)
+    stream_history_independence(ctx)
     text_oracles(ctx)
     answered = stream_lib(ctx)
     stream_lib_through_machine(ctx, answered)
@@ -2678,6 +3186,8 @@ def replay(witness):
         return bool(wit)
     if 'fv' in inp:
         return bool(fv_check(inp['fv'])[0])
+    if 'hist' in inp:
+        return hi_history([], inp['hist']['probe']) != hi_history(inp['hist']['before'], inp['hist']['probe'], inp['hist'].get('mutate', False))
     try:
         got, seen = text_run(inp['s'], inp.get('codes'))
     except Exception:  # pylint: disable=broad-except
@@ -2716,7 +3226,10 @@ LEVEL_NOTE = ('Trusted: Lean kernel; extract.py; the correspondence harness and 
               'machine\'s library (no match-function form of arrayLastIndexOf / of arrayIndexOf with a start index, no non-ASCII case mapping), '
               'against the Lean jump machine over hostLib; a library call that FAILS while being run as a call-back by another library '
               'function is left out (the property does not say whose failure value the outer call has). Text with lone surrogates: '
-              'implementation-only streams lib-surrogates / text-surrogates (urlEncode*: null or a reversible encoding). For string functions whose body already is '
+              'implementation-only streams lib-surrogates / text-surrogates / the surrogate part of code-points (urlEncode*: null or a reversible encoding). '
+              'Hidden state (a cache keyed by host equality, a result handed out twice) is outside the Lean model, whose calls are functions of heap and arguments and whose '
+              'numbers have no negative zero and no int / float / bool spelling: stream history-independence compares every probe call with itself, alone in a fresh '
+              'instance of the package and inside differently ordered histories (correspondence-strength). For string functions whose body already is '
               'a plain code-point operation (startsWith, endsWith, split, replace, trim, lower/upper) the reference IS the modelled '
               'primitive: their contract is correspondence-strength (lib stream + Python reference), not a theorem. Machine level: the '
               'bridge theorems assume the call is one Lib models (decidable predicate Modelled / AllModelled); an unmodelled call falls back to '
